@@ -167,6 +167,15 @@ func cmdCheck(args []string) int {
 		return 2
 	}
 	res := p.CheckProperty(*prop, *tier, seed)
+	if *tier == "thorough" && os.Getenv("WALVC_REPO") == "" {
+		st := runSelftests(*prop)
+		res.Extra["must_fail_selftest"] = st
+		for _, r := range st {
+			if !r.OK {
+				res.Lines = append(res.Lines, fmt.Sprintf("SELFTEST-MISS: %s (%s): %s", r.Name, r.Property, r.Outcome))
+			}
+		}
+	}
 	res.WallS = time.Since(start).Seconds()
 	res.writeEvidence()
 	for _, l := range res.Lines {
@@ -303,7 +312,7 @@ func (p *Prog) CheckProperty(prop, tier string, seed int) *CheckResult {
 		}
 		obls = keep
 	}
-	work := filepath.Join(verifDir, "work", prop+"-"+tier)
+	work := filepath.Join(outDir, "work", prop+"-"+tier)
 	os.RemoveAll(work)
 	SolveAll(obls, work, timeout, all)
 	// robustness: an obligation that timed out under load is retried alone
@@ -546,9 +555,9 @@ func (r *CheckResult) writeEvidence() {
 		"wall_s":      r.WallS,
 		"violations":  r.NViol,
 	}
-	os.MkdirAll(filepath.Join(verifDir, "evidence"), 0755)
+	os.MkdirAll(filepath.Join(outDir, "evidence"), 0755)
 	data, _ := json.MarshalIndent(ev, "", " ")
-	os.WriteFile(filepath.Join(verifDir, "evidence", r.Prop+".json"), data, 0644)
+	os.WriteFile(filepath.Join(outDir, "evidence", r.Prop+".json"), data, 0644)
 }
 
 // propertyAssumptions: paper arguments / uncovered conjuncts per property
@@ -558,11 +567,13 @@ var propertyAssumptions = map[string][]string{}
 // replay writes the replay artefact of a failed obligation and tries to
 // reproduce the failure on the real code.
 func (p *Prog) replay(o *Obl, prop string) (string, bool) {
-	dir := filepath.Join(verifDir, "replays")
+	dir := filepath.Join(outDir, "replays")
 	os.MkdirAll(dir, 0755)
 	base := sanitize(strings.NewReplacer("/", "_", "(", "", ")", "", "*", "", "[", "_", "]", "", ",", "_", ":", "_").Replace(o.Name))
-	if path, ok := p.tryConcreteReplay(o, prop, dir, base); ok {
-		return path, true
+	if os.Getenv("WALVC_NO_REPLAY") == "" {
+		if path, ok := p.tryConcreteReplay(o, prop, dir, base); ok {
+			return path, true
+		}
 	}
 	path := filepath.Join(dir, base+".txt")
 	var b strings.Builder
